@@ -226,6 +226,29 @@ pub fn drifting_target_programs() -> Vec<Vec<u8>> {
     programs
 }
 
+/// Two conditional jumps to two blocks, every block ending in each kind of halting instruction (or in none, so that it
+/// falls through or runs off the end of the code): how one thread ends must not affect the threads still waiting.
+pub fn dispatcher_programs() -> Vec<Vec<Tk>> {
+    let ends: [Option<Tk>; 7] = [None, Some(Tk::Stop), Some(Tk::Return0), Some(Tk::Revert0), Some(Tk::Invalid), Some(Tk::SelfDestruct0), Some(Tk::Unassigned)];
+    let mut out = Vec::new();
+    for (x, y) in [(0u8, 1u8), (1, 0)] {
+        for e0 in ends {
+            for e1 in ends {
+                for e2 in ends {
+                    let mut s = vec![Tk::JI(Cond::Unknown, Target::Label(x)), Tk::JI(Cond::Unknown, Target::Label(y)), Tk::Sentinel];
+                    s.extend(e0);
+                    s.extend([Tk::L, Tk::Sentinel]);
+                    s.extend(e1);
+                    s.extend([Tk::L, Tk::Sentinel]);
+                    s.extend(e2);
+                    out.push(s);
+                }
+            }
+        }
+    }
+    out
+}
+
 pub struct Verdict {
     pub key: String,
     pub what: String,
@@ -427,6 +450,21 @@ impl Check for C08 {
         let alpha = alphabet();
         let n = alpha.len();
         if chunk == seq_chunks(n) {
+            for seq in dispatcher_programs() {
+                let code = assemble(&expand(&seq));
+                ctx.case(|| json!({"bytes": hex(&code)}));
+                ctx.count("programs", 1);
+                ctx.count("dispatcher_programs", 1);
+                match check_code(&code) {
+                    Ok((has_jump, _)) => {
+                        if has_jump {
+                            ctx.count("with_jump_and_exact_cfg", 1);
+                            ctx.distinct("nontrivial", crate::util::h64(&code));
+                        }
+                    }
+                    Err(v) => ctx.violation(v.key, format!("{} [{:?} = {}]", v.what, seq, hex(&code)), json!({"bytes": hex(&code)})),
+                }
+            }
             for code in drifting_target_programs() {
                 ctx.case(|| json!({"bytes": hex(&code), "looping": true}));
                 ctx.count("programs", 1);
@@ -481,7 +519,7 @@ impl Check for C08 {
                  computed constant). For each program the real VM's executed-offset set (restricted to instruction boundaries) is \
                  compared with a reference EVM control-flow exploration: always a subset of the over-approximated CFG; for loop-free \
                  programs equal to the exact reachable set on non-JUMPDEST offsets (also with iteration and fork limit 1 when no \
-                 JUMPDEST is the target of more than one conditional jump), in strict and in permissive error mode. Plus 2 048 loops whose conditional jump takes a target from \
+                 JUMPDEST is the target of more than one conditional jump), in strict and in permissive error mode. Plus 686 two-way dispatchers whose three blocks end in every combination of nothing, STOP, RETURN, REVERT, INVALID, SELFDESTRUCT, unassigned byte; and 2 048 loops whose conditional jump takes a target from \
                  the stack that advances by 1 or 2 on every iteration over tails of JUMPDEST / STOP / push data / INVALID bytes, checked \
                  against bounded-unrolling reference explorations. states = distinct programs with a jump whose \
                  exact reference CFG was validated against the implementation; transitions = programs executed",
